@@ -7,8 +7,12 @@ order), every loop state and every event history.
 
 What is proved here is the run-loop part of the property: the loop never blocks while holding the run lock, produces
 at most one output, keeps the error buffer within the capacity read from the source, and reports "no more outputs"
-exactly once.  That `Execute` itself returns (the providers deliver their callbacks, `terminateAllSteps` returns) is
-validated on generated histories against the real code, not proved: see DESIGN.md, C01, "partial".
+exactly once; and (i) COMPLETENESS: once every step of a well-formed workflow has completed, the loop HAS produced an
+output or reported "no more outputs" / an evaluation failure — it never ends a finished workflow silently
+(`quiescent_run_has_verdict`, proofs in `Arca/Proofs/LoopComplete.lean`, every hypothesis decided by the driver on every
+real workflow and history and backed by a counterexample theorem, `quiescent_hypotheses_needed`).  That `Execute` itself
+returns (the providers deliver their callbacks, `terminateAllSteps` returns) is validated on generated histories against
+the real code, not proved: see DESIGN.md, C01, "partial".
 
 (f)–(h) are what the repair of finding F11 achieves (`markRemainingStagesUnresolvable`, called when a step reports its
 completion): the stages a completed step did not go through are declared impossible at once, so nothing keeps waiting
@@ -17,6 +21,8 @@ for them until unrelated steps end.
 import Arca.Proofs.LoopInv
 import Arca.Proofs.LoopSettle
 import Arca.Proofs.LoopFinishedCex
+import Arca.Proofs.LoopComplete
+import Arca.Proofs.LoopCompleteCex
 import Arca.Gen.Consts
 
 namespace Arca.Props.C01
@@ -107,11 +113,11 @@ callback of every step that declares a stage is in the legal history), then in t
    a stage the step did not go through fail at once.
 
 Precisely what this covers and what it does not: it is a statement about the dependency graph (statuses and
-outstanding-dependency lists).  It does NOT prove that a node without outstanding dependencies has already been taken
-from the ready set and processed (group node resolved, output produced / "no more outputs" reported): that is the
-ready-set bookkeeping of `notifySteps` (`PopReadyNodes` in the same reaction), validated on the four F11 shapes and on
-generated workflows against the real engine by the `prompt` and `engine` streams of this property, and illustrated by
-the executable example `demoF_prompt` below.
+outstanding-dependency lists).  That a node without outstanding dependencies HAS been taken from the ready set and
+processed (group node resolved, output produced / "no more outputs" reported) — the ready-set bookkeeping of
+`notifySteps` (`PopReadyNodes` in the same reaction) — is the subject of (i) `quiescent_run_has_verdict` below; it is
+also validated on the four F11 shapes and on generated workflows against the real engine by the `prompt` and `engine`
+streams of this property, and illustrated by the executable example `demoF_prompt`.
 -/
 theorem all_steps_completed_nothing_waits_for_a_step (P : Prepared) (fns : Fns) (ord : Order) (hord : OrdOK ord)
     (hnd : OrdNodup ord) (hP : P.WF2) (h : List Event) (hl : LegalHistory P fns ord (LoopState.init P) h)
@@ -141,6 +147,53 @@ theorem all_steps_completed_nothing_waits_for_a_step (P : Prepared) (fns : Fns) 
     obtain ⟨n, hn⟩ := Graph.has_iff.1 (hinv.inv.edge_nodes ed he').2
     exact ⟨n, hn, (settled_source hinv.inv he' (hset _ hstep) hn).2 hand hun⟩
 
+
+/-! ### completeness: a finished workflow never ends silently -/
+
+/--
+(i) `quiescent_run_has_verdict`.  For a well-formed prepared workflow (`WF3`: acyclic graph, outputs are sinks with data,
+…), any processing order that is a permutation of the popped nodes (`OrdOK`, `OrdNodup`, `OrdAll`), and any LEGAL
+history that starts with `start` and in which every step has completed: the loop is alive and never panicked, and
+* an output was produced: it is stored as the result, and its `output` action occurred; or
+* "no more outputs" was reported (sent, or dropped because the error buffer was full); or
+* an evaluation failure was reported (`evalFailed`, sent or dropped)
+(`Verdict`, spelled out in `verdict_iff`).  The run loop never ends a finished workflow silently.  Every hypothesis is needed: `LoopCompleteCex.lean`.
+-/
+theorem quiescent_run_has_verdict (P : Prepared) (fns : Fns) (ord : Order) (hord : OrdOK ord) (hnd : OrdNodup ord)
+    (hall : OrdAll ord) (hP : P.WF3) (input : Val) (rest : List Event)
+    (hl : LegalHistory P fns ord (LoopState.init P) (.start input :: rest))
+    (hr : ∀ e ∈ rest, EventReports P e)
+    (hcomp : ∀ step stage, P.declares step stage → ∃ prev out busy, Event.stepComplete step prev out busy ∈ rest) :
+    (run P fns ord (.start input :: rest)).1.dead = false ∧
+    (∀ a ∈ (run P fns ord (.start input :: rest)).2, a.isPanic = false) ∧
+    Verdict (run P fns ord (.start input :: rest)) := by
+  obtain ⟨hnp, hd⟩ := legal_history_never_panics P fns ord hord hnd hP.wf2 _ hl
+  refine ⟨hd, hnp, ?_⟩
+  rcases run_core hP fns ord hord hnd hall input rest hl with hef | ⟨hc, hrd⟩
+  · exact Or.inr (Or.inr hef)
+  · have hr' : ∀ e ∈ Event.start input :: rest, EventReports P e := by
+      intro e he
+      rcases List.mem_cons.1 he with rfl | he
+      · trivial
+      · exact hr e he
+    have hstep := (all_steps_completed_nothing_waits_for_a_step P fns ord hord hnd hP.wf2 _ hl hr' (by
+      intro step stage hdd
+      obtain ⟨prev, out, busy, hm⟩ := hcomp step stage hdd
+      exact ⟨prev, out, busy, List.mem_cons_of_mem _ hm⟩)).2.1
+    rcases core_verdict hP hc hrd hstep with h1 | h1
+    · left
+      cases hres : (run P fns ord (.start input :: rest)).1.result with
+      | none => rw [hres] at h1; cases h1
+      | some p => exact ⟨p.1, p.2, rfl, run_result_has_action P fns ord _ p.1 p.2 hres⟩
+    · exact Or.inr (Or.inl h1)
+
+def hasAct (p : Action → Bool) (l : List Action) : Bool := l.any p
+
+/-- what `Verdict` says -/
+theorem verdict_iff (r : LoopState × List Action) :
+    Verdict r ↔ ((∃ oid v, r.1.result = some (oid, v) ∧ Action.output oid v ∈ r.2) ∨
+      (∃ a ∈ r.2, a.isNoMoreOutputs = true) ∨ (∃ a ∈ r.2, a.isEvalFailed = true)) := Iff.rfl
+
 /-! non-vacuity: a concrete workflow on which the loop does produce its output and reports nothing else -/
 
 def demoOut : Item :=
@@ -161,6 +214,62 @@ def demoResult : Option (String × Val) :=
 example : (match demoResult with
     | some (id, v) => id == "success" && v == .map [("x", .str "n")]
     | none => false) = true := by decide
+
+
+/-! #### `quiescent_run_has_verdict`: the hypotheses are met, and each one is needed
+
+The hypotheses as the DRIVER decides them on every real prepared workflow and delivered history
+(`Prepared.wf3Clauses`, `legalHistoryB`, `eventReportsB`, `allCompleteB`, `Arca/Model/LoopCheck.lean`) imply the
+hypotheses of the theorem (`Arca/Proofs/LoopCheckSound.lean`); `quiescent_stmt` is the theorem in that form. -/
+
+open Arca.Model.CompleteCex in
+theorem quiescent_stmt : QuiescentStmt Prepared.WF3OK OrdPerm StartComplete := by
+  rintro P fns ord h ⟨h1, h2, h3⟩ hW hl hr ⟨input, rest, rfl, hc⟩
+  exact (quiescent_run_has_verdict P fns ord h1 h2 h3 hW.sound input rest hl
+    (fun e he => hr e (List.mem_cons_of_mem _ he)) hc).2.2
+
+/-- every hypothesis of `quiescent_run_has_verdict` is needed: dropping any one well-formedness clause that was added for
+it (`output_sink`: see `ready_empty_needs_output_sink`, C03), `OrdAll`, the initial `start`, or the completion of the
+steps makes the statement false (`Arca/Proofs/LoopCompleteCex.lean`) -/
+theorem quiescent_hypotheses_needed :
+    let Q := Arca.Model.CompleteCex.QuiescentStmt
+    let A := Arca.Model.CompleteCex.AllBut
+    let O := Arca.Model.CompleteCex.OrdPerm
+    let H := Arca.Model.CompleteCex.StartComplete
+    ¬ Q (A "acyclic") O H ∧ ¬ Q (A "has_input") O H ∧ ¬ Q (A "input_id") O H ∧ ¬ Q (A "stage_declared") O H ∧
+    ¬ Q (A "items_nodup") O H ∧ ¬ Q (A "has_output") O H ∧ ¬ Q (A "output_is_node") O H ∧ ¬ Q (A "output_data") O H ∧
+    ¬ Q Prepared.WF3OK (fun ord => OrdOK ord ∧ OrdNodup ord) H ∧
+    ¬ Q Prepared.WF3OK O Arca.Model.CompleteCex.AllComplete ∧
+    ¬ Q Prepared.WF3OK O Arca.Model.CompleteCex.StartsWithStart :=
+  open Arca.Model.CompleteCex in
+  ⟨quiescent_needs_acyclic, quiescent_needs_has_input, quiescent_needs_input_id, quiescent_needs_stage_declared,
+   quiescent_needs_items_nodup, quiescent_needs_has_output, quiescent_needs_output_is_node, quiescent_needs_output_data,
+   quiescent_needs_OrdAll, quiescent_needs_start, quiescent_needs_completion⟩
+
+/-! non-vacuity of `quiescent_run_has_verdict`: `CompleteCex.PX` (step `a` with the stages `s` — output `ok` — and `t`;
+the workflow output needs `steps.a.s.ok`) is well-formed, both histories are legal and complete, so the theorem applies;
+the verdict is the output in one case and "no more outputs" in the other. -/
+
+open Arca.Model.CompleteCex in
+example : Verdict (run PX fns0 id (.start .null :: HXgood)) :=
+  (quiescent_run_has_verdict PX fns0 id ordPerm_id.1 ordPerm_id.2.1 ordPerm_id.2.2 PX_wf.sound .null HXgood
+    PX_good_legal (all_eventReportsB (by decide +kernel)) (allCompleteB_sound (by decide +kernel))).2.2
+
+open Arca.Model.CompleteCex in
+example : Verdict (run PX fns0 id (.start .null :: HXbad)) :=
+  (quiescent_run_has_verdict PX fns0 id ordPerm_id.1 ordPerm_id.2.1 ordPerm_id.2.2 PX_wf.sound .null HXbad
+    PX_bad_legal (all_eventReportsB (by decide +kernel)) (allCompleteB_sound (by decide +kernel))).2.2
+
+open Arca.Model.CompleteCex in
+example : (match (run PX fns0 id (.start .null :: HXgood)).1.result with
+    | some (id, v) => id == "o" && v == .str "v"
+    | none => false) = true := by decide +kernel
+open Arca.Model.CompleteCex in
+example : hasAct Action.isNoMoreOutputs (run PX fns0 id (.start .null :: HXgood)).2 = false := by decide +kernel
+open Arca.Model.CompleteCex in
+example : (run PX fns0 id (.start .null :: HXbad)).1.result.isSome = false := by decide +kernel
+open Arca.Model.CompleteCex in
+example : hasAct Action.isNoMoreOutputs (run PX fns0 id (.start .null :: HXbad)).2 = true := by decide +kernel
 
 /-! non-vacuity of (f)–(h): `SafeCex.PG` (step `a` with the stages `s` and `t`, `PG_wf2 : PG.WF2`); the step completes
 with its stage `t` without ever going through `s`.  The history is legal, so the theorems apply; and what they say is
@@ -243,7 +352,6 @@ def demoF : Prepared :=
 
 def demoFHist : List Event := [.start .null, .stepComplete "a" "outputs" (some ("success", .map [])) true]
 
-def hasAct (p : Action → Bool) (l : List Action) : Bool := l.any p
 
 /-- `demoF_prompt`: in the reaction to the completion of `a` alone -/
 example : hasAct Action.isNoMoreOutputs (run demoF (fun fn _ => .error (.unknownFn fn)) id demoFHist).2 = true := by
